@@ -15,3 +15,10 @@ claim("C01",
       "Trusted: TLC, the projection of GetQuotaSummaries(true). Groups share the fixed dimension set {cpu,memory}; histories respect what the webhook (C15) admits; feature gates at defaults; "
       "root/system/default groups not asserted; sub-call interleavings are covered only at quiescence of concurrent batches.",
       "DESIGN.md 5 C01")
+claim("C02",
+      "TLA+ spec RuntimeShare (relational predicates + transcription of the water-filling/Hamilton split): TLC exhaustive MC of the transcription against the predicates; real quotaTree.redistribution outputs (exhaustive small table + seeded random sibling sets, several insertion orders) and real multi-level RefreshRuntime levels validated by TLC against the predicates (trace validation, true inputs from the C01 abstract state)",
+      "TLC decides on the model that the two-phase water-filling with largest-remainder split satisfies bounds / sum-fits / work-conservation / weight-proportional fairness / exactness for every input of a bounded domain; "
+      "the same predicates are then evaluated by TLC on the runtime quotas the real code produced for enumerated and random sibling sets (order independence across insertion orders) and, on multi-level trees driven through "
+      "GroupQuotaManager histories, for every level of every RefreshRuntime call with the level's TRUE inputs (max-limited from-scratch request, min, weight, lend flag) taken from the abstract objects.",
+      "Trusted: TLC, in-package reads of quotaNode / calculator fields. 32-bit TLC integers: magnitudes keep weight*total < 2^31 (64-bit-scale memory values are not covered). Min-scale (float) mode off. Guarantee feature gate off.",
+      "DESIGN.md 5 C02")
